@@ -261,6 +261,45 @@ CLAIMS = {
     },
 }
 
+# properties claimed from session 3 on (DESIGN.md 11.9): partial claims through clauses whose truth is in the shape of the code
+CLAIMS['C14'] = {
+    'design': '11.9 (5.14 as amended)',
+    'technique': 'zone (difference-bound) abstract interpretation of CanonicalizePath over the clang CFG facts + whole-program '
+                 'canonicalise-before-intern dataflow + table agreement of the identity map (equality / hash / key)',
+    'decides': '"never lengthens a path" and the upper side of memory safety of the in-place rewrite: on the fixpoint of a zone '
+               'abstract interpretation of CanonicalizePath(char*, size_t*, uint64_t*) every read lies inside [path, path+len), '
+               'every write, memchr and memmove ends at or below path+len with a non-negative length, and the length stored back '
+               'is at most the length passed in; "two spellings name the same file to ninja" at system level: every call in the '
+               'program that turns a string into a node identity (State::GetNode / LookupNode / AddIn / AddOut / AddValidation / '
+               'AddDefault) receives a string that passed CanonicalizePath on every path, or its own caller-checked parameter, or a '
+               'name read back from a log that ninja wrote from Node::path() (table with reasons, each entry verified); the '
+               'std::string overload always delegates to the char* overload with the string\'s own bytes and size and cuts the '
+               'string to the reported length; "paths that differ in any other way stay distinct" at system level: State::GetNode / '
+               'LookupNode search and store under exactly the string given, table keys compare by length and memcmp over the '
+               'whole length and hash the same (pointer, length) pair.',
+    'not_decided': 'that CanonicalizePath maps exactly the lexically equal spellings to one string; idempotence; kept leading "/" '
+                   'and unresolvable ".."; "." for a path that resolves to nothing (value-level algebra of one pure function); lower '
+                   'bounds of the write cursor (they need a content invariant relating component_count to the separators written).',
+}
+CLAIMS['C15'] = {
+    'design': '11.9 (5.15 as amended)',
+    'technique': 'RejectIf / guard-fact rules + flag-product reachability (predicate abstraction over the parser\'s boolean flags) + '
+                 'zone abstract interpretation of the in-place de-escaping, over the clang CFG facts of the generated parser',
+    'decides': 'the two rejection clauses and the bookkeeping clauses of the statement: once a name was collected '
+               'DepfileParser::Parse cannot return success unless a target colon was seen (reachability in the product of the CFG '
+               'with the two flags), and the colon flag is raised only by a name ending in \':\'; a known prerequisite in target '
+               'position always poisons the rule, a new prerequisite of a poisoned rule makes Parse fail, the poison is lifted '
+               'exactly at the end of a rule; a name is appended to ins_ / outs_ only when a search of the whole list for that very '
+               'name found nothing ("each dependency once"); names are filed into ins_ exactly in dependency position and into outs_ '
+               'exactly in target position, the position flips only at a colon-terminated name and back only at a rule-ending '
+               'newline, the position of a name is read before its own colon is processed, nothing else writes the lists ("targets '
+               'and dependencies kept apart"); both loaders look at the result of Parse, fail when it fails, and consume the whole '
+               'ins_ list; on the fixpoint of a zone abstract interpretation of Parse every de-escaping byte write, memset and '
+               'memmove ends at or below the read cursor with a non-negative length (text not yet scanned is never overwritten).',
+    'not_decided': 'that every escaped spelling (runs of backslashes before space, #, :, $$, line continuations, CRLF) is read back as '
+                   'the name that was written: that is the behaviour of the generated scanner on strings, not a shape of the code.',
+}
+
 # clauses added with validation round 7 (DESIGN.md 11.5 / 11.6)
 _ROUND7 = {
     'C01': ' The command start time is the floor of the recorded mtime: a zero store to record_mtime reaches RecordCommand only in a dry run or through the store of command_start_time_.',
